@@ -33,6 +33,40 @@ CHECKS = {
             "All 5^L outcome sequences (L=6 quick, 8 thorough) for 1..4 nodes; each HTTP call's URL is recorded and "
             "must be node i mod n for the i-th client request.",
             "Outcomes are produced by a scripted requests.request (real Response objects / ConnectionError).", "9/C28"),
+    "C29": ("exhaustive small histories + hypothesis-sampled histories vs reference change list",
+            "Histories with fresh-token values (the stated precondition holds by construction): every range length up "
+            "to 24/40 with <=2 change points x 4 steps exhaustively, plus sampled ranges to 300 levels, <=6 change "
+            "points, steps 1..400; find_state_changes must equal the reference list in increasing order, "
+            "find_state_change the first change, get() may only be called inside [last, head].",
+            "Non-termination is detected deterministically by a call budget on get() (40x the range length), not by "
+            "wall clock.", "9/C29"),
+    "C30": ("hypothesis PBT, round-trip oracle (apply/revert) on edit-script text pairs and protocol pairs",
+            "Text pairs built as edit scripts over a hostile line alphabet, context sizes 0..5: apply(make_patch)==new, "
+            "revert==old, identical=>empty; Protocol.diff/patch on generated multi-file protocols reproduces the "
+            "second protocol's files.", "Line separator is \\n only (other str.splitlines separators are outside "
+            "the stated domain).", "9/C30"),
+    "C32": ("hypothesis PBT, constructor-known verdict vs ViewSection.match",
+            "View names over allowed+forbidden characters with boundary lengths, code trees built by a constructor "
+            "that tracks lambda bodies (LAMBDA, LAMBDA_REC, pushed literals nested in Pair/Some/Left/Right/list/Elt); "
+            "reject iff the statement's rule says so, in both directions.",
+            "Lambda_rec data literals are not a registered primitive in pytezos (match fails for an unrelated reason) "
+            "and are excluded; CREATE_CONTRACT's inner script is a separate contract and never contains restricted "
+            "instructions in generated cases.", "9/C32"),
+    "C09": ("exhaustive over table rows + hypothesis payloads/corruptions vs own base58check and prefix registry",
+            "Every table row: extremes (=> all payloads by monotonicity) and random payloads round-trip with the "
+            "documented prefix/length and equal the reference encoding; corrupted strings (valid-checksum variants "
+            "included) that the reference decoder rejects must be rejected by base58_decode and every is_* predicate; "
+            "pairwise table ambiguity check; table compared with an independently written registry.",
+            "The registry in vlib/ref_crypto.py is written from Tezos' base58.ml from memory; each row was confirmed by "
+            "computing min/max encodings (prefix and length agree).", "9/C09"),
+    "C05": ("hypothesis PBT (trees, near-pairs, byte mutations) + exhaustive short strings + atheris differential fuzzing",
+            "forge == independent reference encoder byte for byte; unforge(forge(e)) == normalize(e); distinct normal "
+            "forms encode differently; primitive table == independent table; every byte string the strict reference "
+            "decoder rejects (unknown tag/prim, truncation, trailing bytes, non-minimal int) must be rejected; all "
+            "strings of length <=2 and all prim tags exhaustively; thorough adds 16 atheris workers with the "
+            "differential oracle inside the target.",
+            "Reference codec written from the Micheline/data-encoding rules; deprecated tags 0x1c/0x4a are not "
+            "asserted (pytezos spells them differently on purpose). Rejection is asserted one-directionally.", "9/C05"),
 }
 
 NOT_BUILT = {}
